@@ -136,10 +136,14 @@ def _run_chunk(ctx: F.Ctx, case) -> F.Outcome:
         }
         small = len(l1) <= 2 and len(l2) <= 2
         nests = any(m[0] == "grp" for m in l1 + l2)
-        for day in [ordinary] + _EDGE_DAYS:
+        # `day` is the LOCAL calendar day; in the two non-UTC zones the UTC calendar day is the day
+        # before (east, just after midnight) or the day after (west, in the evening)
+        for zone, day in [("utc-noon", ordinary)] + [("utc-noon", d) for d in _EDGE_DAYS] + [
+                ("east-night", ordinary), ("west-evening", ordinary), ("east-night", _EDGE_DAYS[0])]:
+            H.set_zone(zone)
             H.freeze(day)
             arg_lists = (
-                arg_lists_full if (day == ordinary and small) else arg_lists_edge
+                arg_lists_full if (zone == "utc-noon" and day == ordinary and small) else arg_lists_edge
             )
             cache = {}
             for args in arg_lists:
@@ -167,6 +171,7 @@ def _run_chunk(ctx: F.Ctx, case) -> F.Outcome:
                         "file_group_map": real_map,
                         "args": real_args,
                         "day": day.isoformat(),
+                        "zone": zone,
                         "expected": want,
                         "observed": got,
                     }
@@ -187,6 +192,7 @@ def _run_chunk(ctx: F.Ctx, case) -> F.Outcome:
                                     "whole": got,
                                 }
             obs.append(H.digest(sorted(map(repr, cache.items()))))
+    H.set_zone()
     out.obs = H.digest(obs)
     return out
 
@@ -276,7 +282,7 @@ def run(ctx: F.Ctx):
         },
         "assumptions": [
             "acyclic maps only (the statement is about acyclic configurations)",
-            "time frozen per execution with freezegun",
+            "time frozen per execution with freezegun; besides a UTC machine at noon, two zones in which the local calendar day is not the UTC calendar day (00:30 at UTC+2, 19:30 at UTC-8), with datetime.now(tz) made faithful",
             "names/paths outside the alphabet are covered only by the small-scope hypothesis",
         ],
         "exhaustive": True,
